@@ -55,11 +55,23 @@ def find_parse(E):
     return c[0]
 
 
-def run_parse(E, fn, bytes_):
+def run_parse(E, fn, bytes_, bounds=None):
     ex = Executor(E.fns, E.solver, E.consts, natives_str.STR_NATIVES + natives.NATIVES, "f64")
     ex.normalizer = None
-    ret = ex.exec_fn(fn, [VStr(bytes_)])
+    ret = ex.exec_fn(fn, [VStr(bytes_, bounds)])
     return ex, ret
+
+
+def shapes(B):
+    """every way to cut B bytes into characters of UTF-8 width 1..4 (width 1: a symbolic ASCII byte; wider: the representative
+    character of that width)"""
+    if B == 0:
+        return [[]]
+    out = []
+    for w in (1, 2, 3, 4):
+        if w <= B:
+            out += [[w] + rest for rest in shapes(B - w)]
+    return out
 
 
 def native_parse(txt):
@@ -83,44 +95,57 @@ def save(name, case):
 def totality(v, E, fn, Bmax):
     for B in range(0, Bmax + 1):
         t0 = time.time()
-        bs = [smt.var(f"b{j}", smt.INT) for j in range(B)]
-        dom = [smt.and_(smt.le(smt.I0, b), smt.le(b, smt.const(127))) for b in bs]
-        try:
-            ex, ret = run_parse(E, fn, bs)
-        except (ExecError, MirError) as e:
-            v.inconcl(f"TimeDelta::parse: cannot encode at length {B}: {e}")
-            return
-        q = 0
+        q = nsites = 0
         reported = set()
-        for ob in ex.obligations:
-            st, model = E.ask(dom + ex.assumptions + [ob.cond])
-            q += 1
-            if st == "unknown":
-                v.inconcl(f"totality: solver unknown for panic site '{ob.msg}' at length {B}")
-                continue
-            if st != "sat":
-                continue
-            key = f"td_parse_total::{ob.msg}"
-            if key in reported:
-                continue
-            reported.add(key)
-            if v.is_known(key):
-                v.note_known(key)
-                continue
-            txt = model_string(model, B)
-            got = native_parse(txt)
-            path = save(f"total_B{B}_{len(reported)}", {"property": "C18", "kind": "totality", "input": txt,
-                                                      "input_hex": txt.encode().hex(), "solver_message": ob.msg, "native": got})
-            if got.startswith("PANIC"):
-                v.failure(key, path, f"TimeDelta::parse({txt!r}) panics natively: {got[6:150]}")
-            else:
-                v.inconcl(f"totality: solver path to '{ob.msg}' with input {txt!r} does not panic natively ({got}); case {path}")
+        shp = shapes(B)
+        for shape in shp:
+            bs, dom, bounds, off, chars = [], [], {0}, 0, []
+            for w in shape:
+                if w == 1:
+                    b = smt.var(f"b{off}", smt.INT)
+                    bs.append(b)
+                    dom.append(smt.and_(smt.le(smt.I0, b), smt.le(b, smt.const(127))))
+                    chars.append(("a", off))
+                else:
+                    bs += [smt.const(x) for x in natives_str.utf8_bytes(w)]
+                    chars.append(("m", w))
+                off += w
+                bounds.add(off)
+            try:
+                ex, ret = run_parse(E, fn, bs, None if all(w == 1 for w in shape) else bounds)
+            except (ExecError, MirError) as e:
+                v.inconcl(f"TimeDelta::parse: cannot encode at length {B} (character widths {shape}): {e}")
+                return
+            nsites += len(ex.obligations)
+            for ob in ex.obligations:
+                st, model = E.ask(dom + ex.assumptions + [ob.cond])
+                q += 1
+                if st == "unknown":
+                    v.inconcl(f"totality: solver unknown for panic site '{ob.msg}' at length {B}")
+                    continue
+                if st != "sat":
+                    continue
+                key = f"td_parse_total::{ob.msg}"
+                if key in reported:
+                    continue
+                reported.add(key)
+                if v.is_known(key):
+                    v.note_known(key)
+                    continue
+                txt = "".join(chr(int((model or {}).get(f"b{c[1]}", 32))) if c[0] == "a" else chr(natives_str.MULTI[c[1]]) for c in chars)
+                got = native_parse(txt)
+                path = save(f"total_B{B}_{len(reported)}", {"property": "C18", "kind": "totality", "input": txt,
+                                                          "input_hex": txt.encode().hex(), "solver_message": ob.msg, "native": got})
+                if got.startswith("PANIC"):
+                    v.failure(key, path, f"TimeDelta::parse({txt!r}) panics natively: {got[6:150]}")
+                else:
+                    v.inconcl(f"totality: solver path to '{ob.msg}' with input {txt!r} does not panic natively ({got}); case {path}")
         v.evaluations += q
         if not reported:
             v.nontrivial += 1
-        v.harness_table.append({"check": "totality", "length": B, "panic_sites_reached": len(ex.obligations), "queries": q,
-                                "executor_steps": ex.steps, "wall_s": round(time.time() - t0, 2)})
-        log(f"  [M] totality B={B}: {len(ex.obligations)} panic-site path conditions, {q} queries, {time.time() - t0:.1f}s"
+        v.harness_table.append({"check": "totality", "length": B, "character_width_shapes": len(shp), "panic_sites_reached": nsites, "queries": q,
+                                "wall_s": round(time.time() - t0, 2)})
+        log(f"  [M] totality B={B}: {len(shp)} character-width shapes, {nsites} panic-site path conditions, {q} queries, {time.time() - t0:.1f}s"
             + (" FAIL" if reported else ""))
 
 
@@ -226,11 +251,16 @@ def value_law(v, E, fn, tier):
 
 def validate_translator(v, E, fn):
     """repository test strings + a few malformed ones through both the encoding (constant bytes) and the native code."""
-    cases = ["1y2mo3d4h5m6s", "2y1mo-3d5h-2m3s", "3d", "15ms", "7w", "100ns", "", "5", "1x", "1d2", "-4h", "+2us", "12mo1y", "3s4"]
+    cases = ["1y2mo3d4h5m6s", "2y1mo-3d5h-2m3s", "3d", "15ms", "7w", "100ns", "", "5", "1x", "1d2", "-4h", "+2us", "12mo1y", "3s4",
+             "\u00e9", "1d\u00e9", "\u20ac3h", "1\u00e9", "2w\U0001f600", "1d\u00e92h", "\u00e9\u00e9", "5m\u20ac"]
     n = 0
     for txt in cases:
         try:
-            ex, ret = run_parse(E, fn, [smt.const(b) for b in txt.encode()])
+            bounds, off = {0}, 0
+            for ch in txt:
+                off += len(ch.encode())
+                bounds.add(off)
+            ex, ret = run_parse(E, fn, [smt.const(b) for b in txt.encode()], None if txt.isascii() else bounds)
         except (ExecError, MirError) as e:
             v.inconcl(f"translator validation: cannot execute parse({txt!r}): {e}")
             return n
@@ -274,14 +304,15 @@ def check(v, tier, opts):
         v.solver_time += E.solver.time
         v.engines["mir2smt"].update({"queries": E.solver.queries, "answers": E.solver.stats})
         E.close()
-    v.bounds += ["totality: every ASCII string (bytes 0..127) of length 0..=4 quick / 0..=6 thorough",
+    v.bounds += ["totality: every string of 0..=4 (quick) / 0..=6 (thorough) bytes made of ASCII bytes (0..127, symbolic) and multi-byte "
+                 "characters in every arrangement of UTF-8 widths, one representative character per width (U+00E9, U+20AC, U+1F600)",
                  "value law: 60 one-term templates + 120 (quick) / 600 (thorough) seeded two-term + 300 three-term (thorough) templates; "
                  "numbers of 1-2 symbolic digits, sign in {none,-,+}, all ten units"]
     v.assumptions += ["std string function specifications (15 one-liners in lib/mir_engine/natives_str.py)",
                       "chrono::Duration == exact nanosecond count within +-i64::MAX milliseconds; seconds()/nanoseconds()/+ per chrono docs"]
     v.outside += ["DateTime::parse on text that is not of the shape of a listed format (arbitrary bytes, other field widths, signs, extra "
                   "whitespace), Time::parse, and chrono's format interpreter itself (replaced by the contract model of chrono_fmt.py)",
-                  "non-ASCII input (multi-byte characters only shift byte indices)", "strings longer than the bound; numbers with more than 18 digits"]
+                  "multi-byte characters other than the three representatives (the parser only tests ASCII classes)", "strings longer than the bound; numbers with more than 18 digits"]
     v.samples.append({"check": "totality", "length": 2, "query": "exists b0,b1 in 0..127: path condition of `unwrap` on Err of str::parse::<i64>(s[0..1])"})
     return v.finish(RULE + DT_RULE)
 
